@@ -1029,3 +1029,118 @@ func c08R9(c *Ctx) {
 	}
 	c.info("in_flight_flags_set", nSets)
 }
+
+// c08R10: a package-level channel used as a counting semaphore (send to take a
+// slot, receive to give it back) deadlocks as soon as the code that runs while
+// a slot is held can need another slot of the same channel and there are as
+// many holders as slots — nested fan-outs that share one budget (seed C08-2r8:
+// sixteen item constructions each wait for an author fetch that can never get
+// a slot; the first harvest runs under State.m, so the UI hangs). Reported:
+// every function that sends on such a channel, receives from it later, and in
+// between calls — or starts with `go` — something from which another send on
+// the same channel is reachable. The pinned tree has no channel operation at
+// all, so the rule has no instance there.
+func c08R10(c *Ctx) {
+	P := c.P
+	chanOf := func(v ssa.Value) *ssa.Global {
+		u, ok := v.(*ssa.UnOp)
+		if !ok || u.Op != token.MUL {
+			return nil
+		}
+		g, _ := u.X.(*ssa.Global)
+		return g
+	}
+	// functions that take a slot of g, directly
+	takes := map[*ssa.Global]map[*ssa.Function]bool{}
+	for _, fn := range P.Funcs {
+		eachInstr(fn, func(_ *ssa.BasicBlock, _ int, in ssa.Instruction) {
+			if sd, ok := in.(*ssa.Send); ok {
+				if g := chanOf(sd.Chan); g != nil {
+					if takes[g] == nil {
+						takes[g] = map[*ssa.Function]bool{}
+					}
+					takes[g][fn] = true
+				}
+			}
+		})
+	}
+	n := 0
+	for g, direct := range takes {
+		// everything from which a take of g is reachable (calls, go statements, closures made)
+		reach := map[*ssa.Function]bool{}
+		for fn := range direct {
+			reach[fn] = true
+		}
+		for changed := true; changed; {
+			changed = false
+			for _, fn := range P.Funcs {
+				if reach[fn] {
+					continue
+				}
+				eachInstr(fn, func(_ *ssa.BasicBlock, _ int, in ssa.Instruction) {
+					if reach[fn] {
+						return
+					}
+					if ci, ok := in.(ssa.CallInstruction); ok {
+						for _, callee := range P.Callees(ci) {
+							if reach[callee] {
+								reach[fn], changed = true, true
+							}
+						}
+					}
+					if mc, ok := in.(*ssa.MakeClosure); ok && reach[mc.Fn.(*ssa.Function)] {
+						reach[fn], changed = true, true
+					}
+				})
+			}
+		}
+		for fn := range direct {
+			fname := FuncName(fn)
+			// between a send and a later receive on g in this function
+			eachInstr(fn, func(b *ssa.BasicBlock, _ int, in ssa.Instruction) {
+				sd, ok := in.(*ssa.Send)
+				if !ok || chanOf(sd.Chan) != g {
+					return
+				}
+				n++
+				var culprit ssa.Instruction
+				eachInstr(fn, func(b2 *ssa.BasicBlock, _ int, in2 ssa.Instruction) {
+					if culprit != nil || in2 == in || !dominatesInstr(in, in2) {
+						return
+					}
+					// still held here: some receive on g comes after in2
+					held := false
+					eachInstr(fn, func(_ *ssa.BasicBlock, _ int, in3 ssa.Instruction) {
+						if u, ok := in3.(*ssa.UnOp); ok && u.Op == token.ARROW && chanOf(u.X) == g && (dominatesInstr(in2, in3) || blockReaches(in2.Block(), in3.Block())) {
+							held = true
+						}
+					})
+					if !held {
+						return
+					}
+					if ci, ok := in2.(ssa.CallInstruction); ok {
+						for _, callee := range P.Callees(ci) {
+							if reach[callee] {
+								culprit = in2
+							}
+						}
+						// a function value handed in: whatever the callers pass
+						if len(P.Callees(ci)) == 0 && ci.Common().StaticCallee() == nil && !ci.Common().IsInvoke() {
+							culprit = in2
+						}
+					}
+				})
+				c.check(culprit == nil, fname+"/slot-held:"+g.Name(), P.InstrPos(in), fname, "nothing that runs while the slot is held needs another slot",
+					"a slot of the bounded channel "+g.Name()+" is held across "+describeInstrOpt(P, culprit)+", from which another send on the same channel is reachable: with every slot held by a waiter the program deadlocks (the first harvest runs under the UI lock)")
+			})
+		}
+	}
+	c.info("semaphore_takes", n)
+}
+
+func describeInstrOpt(P *Program, in ssa.Instruction) string {
+	if in == nil {
+		return "nothing"
+	}
+	return describeInstr(P, in)
+}
